@@ -87,6 +87,29 @@ def murmur3_collision_partner(data: bytes, seed: int, block: int, new_word: int)
     return out
 
 
+def murmur3_preimage4(target: int, seed: int) -> bytes:
+    """the 4-byte string whose MurmurHash3 (x86, 32 bit) value under `seed` is `target`: every step of the hash of a
+    single full block is a bijection on 32-bit words"""
+    c1, c2 = 0xcc9e2d51, 0x1b873593
+    inv = lambda m: pow(m, -1, 1 << 32)
+    h = target & M32
+    h ^= h >> 16
+    h = (h * inv(0xc2b2ae35)) & M32
+    h ^= (h >> 13) ^ (h >> 26)
+    h = (h * inv(0x85ebca6b)) & M32
+    h ^= h >> 16
+    h ^= 4
+    h = ((h - 0xe6546b64) * inv(5)) & M32
+    h = _rotl32(h, 19)
+    k = h ^ (seed & M32)
+    k = (k * inv(c2)) & M32
+    k = _rotl32(k, 17)
+    k = (k * inv(c1)) & M32
+    out = k.to_bytes(4, "little")
+    assert murmur3_x86_32(out, seed & M32) == target & M32
+    return out
+
+
 def bip37_bit_indexes(item: bytes, size_bytes: int, nfuncs: int, tweak: int):
     """CBloomFilter::Hash for nHashNum in 0..nfuncs-1: MurmurHash3(nHashNum * 0xFBA4C795 + nTweak, item) % (size*8);
     the seed arithmetic is unsigned 32-bit"""
